@@ -7,6 +7,7 @@ through the matching reader and compared with the original field by field throug
 (never through the library's ==); an error analysis of original and copy must give the same
 numbers.
 """
+import copy
 import csv
 import gzip
 import json as pyjson
@@ -30,6 +31,12 @@ RULE = ('cases: one structure (Obs / list / ndarray of 0-4 dimensions / Corr N=1
         '(support class one chain | replicas | 2-3 ensembles | covariance only | mixed; range / strided / gapped / irregular lists; covariance '
         'inputs of dimension 1-3; magnitudes 1e-200..1e200; tags of every JSON type incl. falsy ones), written and read through one transport '
         '(string, file, file.gz, Obs.dump / Corr.dump, dict file, csv, csv.gz, sqlite, sqlite gz, pickle; indent 0/1); '
+        'histories: twins (same type, shape, chain names, first / last configuration, lengths; different interior and data, one tagged one not) written and '
+        'read in both orders as strings, under one file name in two directories, overwriting one name, dump-modify-dump, sqlite replace / append, dict files, '
+        'pickle; alias cases: the same Obs at several positions of a list / array / Corr / dict / file / frame; inputs as int32 / int64 / list / range lists, '
+        'strided sample and fluctuation arrays, Fortran / transposed / negative-stride object arrays, Corr from list / 1-d / 3-d array / array of Corr / views, '
+        'covariance as scalar / 1-d / 2-d list or array with entries 1e-240..1e240 and gradients 1e-70..1e70; T = 1, empty dicts, zero-length description; '
+        'every write is followed by an argument-untouched judgement and every read by a no-shared-memory judgement; '
         'non-trivial: the round trip completed and at least one compared observable carries a Monte-Carlo chain with non-zero fluctuations '
         'or a covariance input; distinct = digest of (deep digest of the structure, transport, options)')
 ASSUMPTIONS = ['numbers written by rapidjson are read back bit-identically (checked: 2e5 doubles over 500 decades); central values, covariance '
@@ -41,6 +48,9 @@ ASSUMPTIONS = ['numbers written by rapidjson are read back bit-identically (chec
                'Corr tags are strings or None (documented as a description); dict keys are strings; data frames have no missing cells',
                'the schema is applied with the draft it declares (draft-07); documents are parsed with the standard library json module; NaN tokens '
                'are accepted only in documents that contain undefined timeslices',
+               'objects read back from json-based transports must own their arrays (no memory shared with the written objects or with each other); pickle may '
+               'mirror object identity inside one structure',
+               'a file written under a name must be found by the reader under the same name with the same gz flag; the explicit gz flag, not the extension, decides about compression',
                'python jsonschema, pandas, sqlite3, rapidjson as installed in /venv']
 BUDGET = {'quick': 45, 'thorough': 540}
 
@@ -58,7 +68,10 @@ FRAME_TRANSPORTS = ['csv', 'csv.gz', 'sqlite', 'sqlite.gz']
 
 # tags of every JSON type, falsy ones included; strings with characters that need escaping in JSON and CSV
 TAGS = [None, None, True, False, 0, 1, -3, 2 ** 40, 0.0, 2.5, -1e-300, 1.7e308, '', 'tag', 'a,"b"\n\\ \tü€',
-        'DICTOBSx', 'NaN', 'null', [], [1, 'a', None, [2.5, {}]], {}, {'a': 1, 'b': [None, False, 'x'], 'c': {'d': ''}}, [0], [None]]
+        'DICTOBSx', 'DICTOBS0', 'NaN', 'null', [], [1, 'a', None, [2.5, {}]], {}, {'a': 1, 'b': [None, False, 'x'], 'c': {'d': ''}}, [0], [None],
+        np.int64(7), np.float64(2.5), np.float64(0.0)]        # numpy scalars are written as JSON numbers
+# ensemble names: prefix traps, a name that looks like the dict placeholder, characters that need escaping in JSON / CSV
+C11_ENS = rt_io.ENS_POOL + ['DICTOBS0', 'E"q', 'ü n,x']
 CORR_TAGS = [None, None, 'corr tag', '', 'a,"b"\n\\ ü', 'pion; kappa=0.13']
 
 
@@ -146,14 +159,14 @@ def teardown(ctx):
 def plan(tier):
     m = 1 if tier == 'quick' else 12
     return [('obs', 270 * m), ('list', 180 * m), ('array', 210 * m), ('corr1', 180 * m), ('corrN', 100 * m), ('multi', 90 * m),
-            ('dict', 140 * m), ('frame', 120 * m), ('pickle', 110 * m), ('rew', 70 * m), ('edge', 30 * m)]
+            ('dict', 140 * m), ('frame', 120 * m), ('pickle', 110 * m), ('rew', 70 * m), ('edge', 30 * m), ('history', 80 * m), ('alias', 70 * m)]
 
 
 # ------------------------------------------------------------------------------------------
 # structure generators
 # ------------------------------------------------------------------------------------------
 def pick_tag(rng):
-    return TAGS[int(rng.integers(0, len(TAGS)))]
+    return copy.deepcopy(TAGS[int(rng.integers(0, len(TAGS)))])      # a fresh object per use: nothing is shared between cases
 
 
 def tag_members(rng, members, p=0.5):
@@ -168,6 +181,8 @@ def family(ctx, rng, support, big=False, **kw):
     nmax = 30 if ctx.tier == 'quick' else int(rng.choice([30, 60, 200]))
     if big:
         nmax = min(nmax, 14)
+    if 'ens_pool' not in kw and rng.random() < 0.3:
+        kw['ens_pool'] = C11_ENS
     return Family(PE, rng, support, nmin=5, nmax=nmax, **kw)
 
 
@@ -211,16 +226,45 @@ def make_array(ctx, rng, support, ndim=None):
     return a
 
 
-def make_corr(ctx, rng, support, N):
-    T = int(rng.integers(2, 9)) if N == 1 else int(rng.integers(2, 6))
-    fam = family(ctx, rng, support, big=True)
-    mode = str(rng.choice(['full', 'nones', 'padding', 'both']))
-    undefined = set()
-    if mode in ('nones', 'both') and T > 1:
-        k = int(rng.integers(1, T))
-        undefined = set(int(i) for i in rng.choice(T, size=k, replace=False))
-        if len(undefined) == T:
-            undefined.pop()
+def corr_from(rng, content, N, padding, undefined):
+    """Corr from the representations the constructor documents: list, 1-d object array (N = 1), 3-d object array,
+    N x N array of single-valued Corr objects, matrices given as non-C-contiguous views."""
+    u = rng.random()
+    if N == 1 and u < 0.25 and not undefined:
+        a = np.empty(len(content), dtype=object)
+        for i, o in enumerate(content):
+            a[i] = o
+        return PE.Corr(a, padding=padding), 'array-1d'
+    if N > 1 and u < 0.25 and not undefined:
+        return PE.Corr(np.array(content, dtype=object), padding=padding), 'array-3d'
+    if N > 1 and u < 0.45:
+        cc = np.empty((N, N), dtype=object)
+        for i in range(N):
+            for j in range(N):
+                cc[i, j] = PE.Corr([None if c is None else c[i, j] for c in content])
+        return PE.Corr(cc, padding=padding), 'array-of-corr'
+    if N > 1 and u < 0.65:
+        # the same matrices as transposed / Fortran-ordered views
+        cont = [None if c is None else (np.asfortranarray(c) if rng.random() < 0.5 else np.array(c.T)[...].T) for c in content]
+        return PE.Corr(cont, padding=padding), 'list-of-views'
+    return PE.Corr(list(content), padding=padding), 'list'
+
+
+def make_corr(ctx, rng, support, N, fam=None, spec=None):
+    """spec (T, undefined, padding) may be prescribed so that two correlators of identical shape can be built."""
+    fam = family(ctx, rng, support, big=True) if fam is None else fam
+    if spec is None:
+        T = int(rng.integers(1, 9)) if N == 1 else int(rng.integers(1, 6))
+        mode = str(rng.choice(['full', 'nones', 'padding', 'both']))
+        undefined = set()
+        if mode in ('nones', 'both') and T > 1:
+            k = int(rng.integers(1, T))
+            undefined = set(int(i) for i in rng.choice(T, size=k, replace=False))
+            if len(undefined) == T:
+                undefined.pop()
+        padding = [int(rng.integers(0, 3)), int(rng.integers(0, 3))] if mode in ('padding', 'both') else [0, 0]
+    else:
+        T, undefined, padding = spec
     content = []
     for t in range(T):
         if t in undefined:
@@ -235,11 +279,10 @@ def make_corr(ctx, rng, support, N):
             content.append(m)
     if rng.random() < 0.3:
         tag_members(rng, [o for c in content if c is not None for o in (np.asarray(c).ravel() if N > 1 else [c])], 1.0)
-    padding = [int(rng.integers(0, 3)), int(rng.integers(0, 3))] if mode in ('padding', 'both') else [0, 0]
-    if N > 1 and rng.random() < 0.3 and not undefined:
-        c = PE.Corr(np.array(content, dtype=object), padding=padding)     # 3-d array input
-    else:
-        c = PE.Corr(content, padding=padding)
+    c, how = corr_from(rng, content, N, list(padding), undefined)
+    ctx.count('corr_input:' + how)
+    if c.T == 1:
+        ctx.count('corr_T1')
     c.tag = CORR_TAGS[int(rng.integers(0, len(CORR_TAGS)))]
     if rng.random() < 0.5:
         a = int(rng.integers(0, c.T))
@@ -275,8 +318,10 @@ def shape_class(x):
     return type(x).__name__
 
 
-PLAIN = [0, 1, -7, 2.5, 1e-30, True, False, None, 'text', '', 'a "q" \\ \n', [1, 2, [3]], {'k': None}, []]
-DICT_KEYS = ['a', 'b', 'obs', 'x y', '', '0', 'DICT', 'ü', 'nested', 'key"q']
+PLAIN = [0, 1, -7, 2.5, 1e-30, True, False, None, 'text', '', 'a "q" \\ \n', [1, 2, [3]], {'k': None}, {}, {'e': {}}, 'xDICTOBS1', 'DICTOBS', []]
+DICT_KEYS = ['a', 'b', 'obs', 'x y', '', '0', 'DICT', 'ü', 'nested', 'key"q', 'DICTOBS0', 'PLACEHOLDER1']
+# strings that look like the placeholder of the *other* reps setting must survive as strings
+LOOKALIKE = {'DICTOBS': ['PLACEHOLDER0', 'PLACEHOLDER12'], 'PLACEHOLDER': ['DICTOBS0', 'DICTOBS1', 'DICTOBS12x']}
 
 
 def make_dict(ctx, rng, support, depth=0, budget=None, with_empty_list=False):
@@ -306,12 +351,12 @@ def make_dict(ctx, rng, support, depth=0, budget=None, with_empty_list=False):
                     budget['n'] -= 1
                     li.append(make_list(ctx, rng, support, n=int(rng.integers(1, 3))))   # list inside a list: members stored one by one
                 else:
-                    li.append(PLAIN[int(rng.integers(0, len(PLAIN) - 1))])
+                    li.append(copy.deepcopy(PLAIN[int(rng.integers(0, len(PLAIN) - 1))]))
             if all(is_obs(i) for i in li):
                 li.append('sep')          # otherwise the members would have to share one layout
             d[k] = li
         else:
-            d[k] = PLAIN[int(rng.integers(0, len(PLAIN) - (0 if with_empty_list else 1)))]
+            d[k] = copy.deepcopy(PLAIN[int(rng.integers(0, len(PLAIN) - (0 if with_empty_list else 1)))])
     if depth == 0 and not any(True for _ in walk_obs(d)):
         d['must'] = make_obs(ctx, rng, support)
     return d
@@ -426,6 +471,76 @@ def compare(ctx, rng, got, orig, prof, label, opts, separate=False):
 
 
 # ------------------------------------------------------------------------------------------
+# the written objects stay untouched; the objects read back are independent
+# ------------------------------------------------------------------------------------------
+def deep_tags(t):
+    """Detach the mutable leaves of a tree (tags, prange, plain values) from the live objects."""
+    k = t['k']
+    if k == 'Obs':
+        t['tag'] = copy.deepcopy(t['tag'])
+    elif k in ('List', 'Array'):
+        for i in t['items']:
+            deep_tags(i)
+    elif k == 'Corr':
+        t['tag'], t['prange'] = copy.deepcopy(t['tag']), copy.deepcopy(t['prange'])
+        for c in t['content']:
+            if c is not None:
+                deep_tags(c)
+    elif k == 'Dict':
+        for v in t['items'].values():
+            deep_tags(v)
+    else:
+        t['v'] = copy.deepcopy(t['v'])
+    return t
+
+
+def ident(x):
+    """Identity skeleton of a structure: which object sits at which position."""
+    if is_obs(x):
+        return id(x)
+    if is_corr(x):
+        return ('Corr', id(x), tuple(None if c is None else ident(c) for c in x.content))
+    if isinstance(x, np.ndarray) and x.dtype == object:
+        return ('A', id(x), x.shape, x.strides, tuple(id(i) for i in x.ravel()))
+    if isinstance(x, list):
+        return ('L', id(x), tuple(ident(i) for i in x))
+    if isinstance(x, dict):
+        return ('D', id(x), tuple((k, ident(v)) for k, v in x.items()))
+    return ('V', id(x))
+
+
+def freeze(x):
+    return {'tree': deep_tags(tree(x)), 'ident': ident(x), 'obs': [(o, rt_io.obs_arrays(o)) for o in walk_obs(x)]}
+
+
+P_ARG = Profile('argument-modified-by-writer', exact=True)
+
+
+def post_checks(ctx, x, frozen, got, fam, same_objects_allowed=False):
+    """The writer (and reader) must leave what was handed in untouched: same objects at the same places, same numbers,
+    tags, prange; what was read back must not share memory with what was written nor - except for pickle, which mirrors
+    object identity - between its own members."""
+    ctx.count('argument_untouched_checks')
+    ctx.require(ident(x) == frozen['ident'], 'argument-modified-by-writer:objects-replaced', {'type': type(x).__name__})
+    cmp_tree(ctx, tree(x), frozen['tree'], P_ARG, 'x')
+    for o, arrs in frozen['obs']:
+        now = rt_io.obs_arrays(o)
+        if len(now) != len(arrs) or any(a is not b for a, b in zip(now, arrs)):
+            ctx.violation('argument-modified-by-writer:arrays-replaced', {'names': list(o.names)})
+            break
+    if got is None:
+        return
+    g = list(walk_obs(got))
+    w = [o for o, _ in frozen['obs']]
+    ctx.count('sharing_checks')
+    sh = rt_io.sharing(g, w)
+    ctx.require(not sh, fam + ':result-shares-memory-with-written-object', {'pairs (read, written)': sh[:5]})
+    if not same_objects_allowed:
+        sh = rt_io.sharing(g)
+        ctx.require(not sh, fam + ':results-share-memory-with-each-other', {'pairs': sh[:5], 'members': len(g)})
+
+
+# ------------------------------------------------------------------------------------------
 # transports
 # ------------------------------------------------------------------------------------------
 def expect_top(x):
@@ -460,7 +575,7 @@ def raw_file(path, gz):
 def json_transport(ctx, rng, x, transport, tmp, opts):
     """Write x (a structure, or a list of structures) and read it back.  Returns (done, result)."""
     indent = int(rng.integers(0, 2))
-    desc = [None, 'a description', {'k': [1, 2, {'z': None}], 'text': 'uü"'}, 7][int(rng.integers(0, 4))]
+    desc = [None, 'a description', {'k': [1, 2, {'z': None}], 'text': 'uü"'}, 7, ''][int(rng.integers(0, 5))]
     opts.update(indent=indent, desc=repr(desc))
     kw = {'indent': indent}
     if desc is not None:
@@ -477,19 +592,20 @@ def json_transport(ctx, rng, x, transport, tmp, opts):
         if transport == 'file-full':
             gz = bool(rng.integers(0, 2))
         stem = os.path.join(tmp, 'f%d' % int(rng.integers(0, 10 ** 6)))
-        given = stem + str(rng.choice(['', '.json', '.json.gz' if gz else '.json']))
+        # the explicit gz flag decides about compression, also when the name carries the other extension
+        given = stem + str(rng.choice(['', '.json', '.json.gz', '.json']))
         opts.update(gz=gz, name=given[len(stem):])
         okw, _ = guarded_write(ctx, x, lambda: JIO.dump_to_json(x, given, gz=gz, **kw))
         if not okw:
             return False, None
-        path = stem + '.json' + ('.gz' if gz else '')
+        path = given if given.endswith('.gz') else stem + '.json' + ('.gz' if gz else '')
         if not ctx.require(os.path.exists(path), 'json:file-not-at-documented-name', {'given': given, 'gz': gz, 'dir': os.listdir(tmp)}):
             return False, None
         data = raw_file(path, gz)
         ctx.require(len(MON.docs) == 1 and data == MON.docs[-1].encode('utf-8'), 'json:file-content-differs-from-emitted-string',
                     {'ndocs': len(MON.docs), 'len_file': len(data)})
         full = transport == 'file-full'
-        r = JIO.load_json(given if rng.random() < 0.5 else stem, verbose=False, gz=gz, full_output=full)
+        r = JIO.load_json(given if (rng.random() < 0.5 or given.endswith('.gz')) else stem, verbose=False, gz=gz, full_output=full)
     elif transport == 'method':
         # Obs.dump / Corr.dump (json.gz); other structures go through dump_to_json
         stem = 'm%d' % int(rng.integers(0, 10 ** 6))
@@ -508,8 +624,8 @@ def json_transport(ctx, rng, x, transport, tmp, opts):
         raise ValueError(transport)
     if full:
         ctx.require(isinstance(r, dict) and isinstance(r.get('obsdata'), list), 'json:full-output-form', {'type': type(r).__name__})
-        if desc is not None and transport != 'method':
-            ctx.require(json_strict_equal(r.get('description'), desc), 'json:description', {'got': repr(r.get('description'))[:200], 'exp': repr(desc)})
+        if transport != 'method':
+            ctx.require(json_strict_equal(r.get('description'), '' if desc is None else desc), 'json:description', {'got': repr(r.get('description'))[:200], 'exp': repr(desc)})
         r = r['obsdata']
         return True, (r, x if isinstance(x, list) else [x], True)
     if isinstance(x, list) and len(x) != 1:
@@ -520,10 +636,12 @@ def json_transport(ctx, rng, x, transport, tmp, opts):
 def run_json(ctx, rng, x, what, support, transport, tmp):
     opts = {'transport': transport}
     ctx.cell(what, support, transport)
+    frozen = freeze(x)
     done, res = json_transport(ctx, rng, x, transport, tmp, opts)
     if not done:
         return
     got, exp, separate = res
+    post_checks(ctx, x, frozen, got, 'json')
     compare(ctx, rng, got, exp, P_JSON, transport, opts, separate=separate)
     ctx.sample({'structure': what, 'support': support, 'transport': opts, 'members': sum(1 for _ in walk_obs(x)),
                 'chains': sorted(set(n for o in walk_obs(x) for n in o.names))})
@@ -542,6 +660,28 @@ def run_dict(ctx, rng, support, tmp, with_empty_list=False):
     stem = os.path.join(tmp, 'd%d' % int(rng.integers(0, 10 ** 6)))
     MON.docs.clear()
     kw = {} if reps == 'DICTOBS' else {'reps': reps}
+    if rng.random() < 0.4:
+        # plain strings that look like the placeholder of the other setting are ordinary values
+        d[str(rng.choice(['look', 'alike']))] = str(rng.choice(LOOKALIKE[reps]))
+        sub = next((v for v in d.values() if isinstance(v, dict)), None)
+        if sub is not None:
+            sub['look2'] = [str(rng.choice(LOOKALIKE[reps])), 1]
+    if rng.random() < 0.12:
+        # a string that does match the placeholder in force: refusing is the documented reaction, substituting it on import is not
+        bad = dict(d)
+        bad['collision'] = reps + '0'
+        try:
+            JIO.dump_dict_to_json(bad, stem + 'c', description=desc, indent=indent, gz=gz, **kw)
+        except Exception as e:
+            ctx.ev()
+            ctx.count('placeholder_collision_refused')
+            ctx.require('placeholder' in str(e), 'jsondict:placeholder-collision-unexpected-error', {'error': repr(e)[:200]})
+        else:
+            rb = JIO.load_json_dict(stem + 'c', verbose=False, gz=gz, **kw)
+            ctx.require(isinstance(rb.get('collision'), str) and rb.get('collision') == reps + '0', 'jsondict:placeholder-lookalike-string-replaced-on-import',
+                        {'got': type(rb.get('collision')).__name__})
+    frozen = freeze(d)
+    frozen_desc = copy.deepcopy(desc)
     try:
         okw, _ = guarded_write(ctx, d, lambda: JIO.dump_dict_to_json(d, stem, description=desc, indent=indent, gz=gz, **kw))
     except IndexError:
@@ -560,6 +700,8 @@ def run_dict(ctx, rng, support, tmp, with_empty_list=False):
     if full:
         ctx.require(json_strict_equal(r.get('description'), desc), 'jsondict:description', {'got': repr(r.get('description'))[:200], 'exp': repr(desc)})
         r = r['obsdata']
+    ctx.require(json_strict_equal(desc, frozen_desc), 'argument-modified-by-writer:description', {'got': repr(desc)[:200]})
+    post_checks(ctx, d, frozen, r, 'jsondict')
     compare(ctx, rng, r, d, Profile('jsondict'), 'dictfile', opts)
     ctx.sample({'structure': 'dict', 'support': support, 'transport': opts, 'keys': sorted(d), 'members': sum(1 for _ in walk_obs(d))})
 
@@ -573,6 +715,7 @@ def csv_cells(path, gz):
 
 
 ONE_ELEMENT_LIST = 'df:one-element-list-cell-read-back-as-bare-obs'
+CSV_NAME = 'df-csv:dump_df-appends-.csv-to-name-ending-in-.csv.gz-where-load_df-does-not-look'
 
 
 def frame_read(ctx, fn, auto_gamma, short_lists):
@@ -619,18 +762,33 @@ def run_frame(ctx, rng, support, transport, tmp):
         ctx.cell({'obs': 'Obs', 'list': 'list', 'corr1': 'Corr1', 'corrN': 'CorrN'}[what], support, transport)
     MON.docs.clear()
     ndocs = nrows * len(kinds)
+    frozen = freeze(cols)
     if transport.startswith('csv'):
         stem = os.path.join(tmp, 'frame')
-        okw, _ = guarded_write(ctx, cols, lambda: PIO.dump_df(df, stem, gz=gz))
+        given = stem + str(rng.choice(['', '.csv', '.csv.gz' if gz else '.csv']))
+        opts['name'] = given[len(stem):]
+        okw, _ = guarded_write(ctx, cols, lambda: PIO.dump_df(df, given, gz=gz))
         if not okw:
             return
         path = stem + '.csv' + ('.gz' if gz else '')
+        read_name = given if rng.random() < 0.6 else (stem if rng.random() < 0.5 else path)
+        if not os.path.exists(path):
+            # dump_df and load_df must agree on where a given name lives (as dump_to_json / load_json do)
+            found = sorted(f for f in os.listdir(tmp) if f.startswith('frame'))
+            ctx.ev()
+            if given.endswith('.csv.gz') and found == ['frame.csv.gz.csv.gz']:
+                ctx.violation(CSV_NAME, {'given': os.path.basename(given), 'gz': gz, 'written': found,
+                                         'load_df looks for': os.path.basename(given)})
+                path = read_name = os.path.join(tmp, found[0])
+            else:
+                ctx.violation('df-csv:file-not-at-documented-name', {'given': os.path.basename(given), 'gz': gz, 'written': found})
+                return
         rows = csv_cells(path, gz)
         cells = [c for row in rows[1:] for c in row if c.startswith('{"program"')]
         ctx.require(rows[0] == order and len(rows) == nrows + 1, 'df-csv:file-shape', {'header': rows[0], 'rows': len(rows)})
         ctx.require(sorted(cells) == sorted(MON.docs) and len(cells) == ndocs, 'df-csv:cells-differ-from-emitted-documents',
                     {'cells': len(cells), 'docs': len(MON.docs), 'expected': ndocs})
-        back = frame_read(ctx, lambda: PIO.load_df(stem if rng.random() < 0.5 else path, auto_gamma=auto_gamma, gz=gz), auto_gamma, short_lists)
+        back = frame_read(ctx, lambda: PIO.load_df(read_name, auto_gamma=auto_gamma, gz=gz), auto_gamma, short_lists)
         fam = 'df-csv'
     else:
         db = os.path.join(tmp, 'frame.sqlite')
@@ -660,6 +818,8 @@ def run_frame(ctx, rng, support, transport, tmp):
     ctx.require([int(i) for i in got['id']] == cols['id'], fam + ':plain-int-column', {'got': repr(got['id']), 'exp': cols['id']})
     ctx.require([str(s) for s in got['label']] == cols['label'], fam + ':plain-str-column', {'got': repr(got['label']), 'exp': cols['label']})
     prof = Profile(fam)
+    ctx.require(all(df[c][i] is cols[c][i] for c in cols for i in range(nrows) if c.startswith('c_')), 'argument-modified-by-writer:frame-cells-replaced', {})
+    post_checks(ctx, cols, frozen, {c: got[c] for c in got if c.startswith('c_')}, fam)
     for what in kinds:
         c = 'c_' + what
         for i in range(nrows):
@@ -688,6 +848,7 @@ def run_pickle(ctx, rng, support, idx, tmp):
                 except ValueError:
                     pass                     # replicas without a common spacing cannot be analysed
     name = 'p%d' % int(rng.integers(0, 10 ** 6))
+    frozen = freeze(x)
     how = 'dump_object'
     if is_obs(x) and rng.random() < 0.7:
         how = 'Obs.dump'
@@ -702,6 +863,7 @@ def run_pickle(ctx, rng, support, idx, tmp):
     if not ctx.require(os.path.exists(path), 'pickle:file-not-at-documented-name', {'how': how, 'dir': os.listdir(tmp)}):
         return
     r = PE.misc.load_object(path)
+    post_checks(ctx, x, frozen, r, 'pickle', same_objects_allowed=True)
     compare(ctx, rng, r, x, P_PICKLE, 'pickle', {'how': how, 'what': what})
     ctx.sample({'structure': what, 'support': support, 'transport': how})
 
@@ -752,7 +914,27 @@ def run_rew(ctx, rng, idx, tmp):
                 ctx.cell('rew-' + what, support, 'csv')
                 compare(ctx, rng, back['c'][0], x, Profile('df-csv'), 'csv rew', {'how': how})
             return
-    run_json(ctx, rng, x, 'rew-' + what, support, transport, tmp)
+    # stored state: a structure of the same shape on the same chains that is NOT reweighted, written before and after
+    def plain_twin():
+        mk = lambda: rt_io.primary(PE, rng, chains, 'white')
+        if what == 'obs':
+            return mk()
+        if what == 'corr1':
+            return PE.Corr([mk() for _ in members])
+        if what == 'list':
+            return [[mk() for _ in members]]
+        a = np.empty(len(members), dtype=object)
+        for i in range(len(members)):
+            a[i] = mk()
+        return a
+    first = bool(rng.integers(0, 2))
+    if first:
+        y = plain_twin()
+        compare(ctx, rng, JIO.import_json_string(JIO.create_json_string(y), verbose=False), expect_top(y), P_JSON, 'plain twin before', {'how': how})
+    run_json(ctx, rng, [x] if (what == 'list' and rng.random() < 0.7) else x, 'rew-' + what, support, transport, tmp)
+    if not first:
+        y = plain_twin()
+        compare(ctx, rng, JIO.import_json_string(JIO.create_json_string(y), verbose=False), expect_top(y), P_JSON, 'plain twin after', {'how': how})
 
 
 def run_edge(ctx, rng, idx, tmp):
@@ -781,6 +963,283 @@ def run_edge(ctx, rng, idx, tmp):
             return
         raise
     compare(ctx, rng, r, a, P_JSON, transport + ' 0-d', {'transport': transport})
+
+
+# ------------------------------------------------------------------------------------------
+# histories: different structures that agree in everything a cheap key would look at, one after the other in one process
+# ------------------------------------------------------------------------------------------
+def build_twins(ctx, rng, what, support):
+    """Two structures of identical type / shape / chain names / first configuration / chain lengths (and last configuration
+    whenever there is room) with different interior configuration numbers and different data."""
+    famA = family(ctx, rng, support, big=True)
+    famB = Family(PE, rng, support, layout=rt_io.twin_layout(rng, famA.layout), cvs=famA.cvs, cov_extreme=famA.cov_extreme, kinds=famA.kinds)
+    spec = {}
+    if what == 'list':
+        spec['n'] = int(rng.integers(1, 4))
+    elif what == 'array':
+        sh = [(2,), (2, 2), (1, 3), (2, 1, 2)]
+        spec['shape'] = sh[int(rng.integers(0, len(sh)))]
+    elif what in ('corr1', 'corrN'):
+        T = int(rng.integers(1, 5))
+        und = set(int(i) for i in rng.choice(T, size=int(rng.integers(0, T)), replace=False)) if T > 1 else set()
+        spec['corr'] = (T, und, [int(rng.integers(0, 2)), int(rng.integers(0, 2))])
+        spec['N'] = 1 if what == 'corr1' else 2
+
+    def build(fam, tagged):
+        if what == 'obs':
+            x = fam.member()
+        elif what == 'list':
+            x = [fam.member() for _ in range(spec['n'])]
+        elif what == 'array':
+            n = int(np.prod(spec['shape']))
+            x = np.empty(n, dtype=object)
+            for i in range(n):
+                x[i] = fam.member()
+            x = x.reshape(spec['shape'])
+        elif what in ('corr1', 'corrN'):
+            x = make_corr(ctx, rng, support, spec['N'], fam=fam, spec=spec['corr'])
+            for o in walk_obs(x):
+                o.tag = None
+        else:
+            a = np.empty(2, dtype=object)
+            a[0], a[1] = fam.member(), fam.member()
+            x = {'o': fam.member(), 'l': [fam.member(), fam.member()], 'n': {'a': a, 'p': 3, 'e': {}}, 'm': [fam.member(), 'text']}
+        # stored state: one twin carries tags / prange, the other does not
+        for o in walk_obs(x):
+            o.tag = pick_tag(rng) if tagged else None
+        if is_corr(x):
+            x.tag = 'twin A' if tagged else None
+            x.prange = [0, x.T - 1] if tagged else None
+        return x
+    first_tagged = bool(rng.integers(0, 2))
+    return build(famA, first_tagged), build(famB, not first_tagged), famA, famB
+
+
+def wrap(x):
+    """(object handed to the writer, object expected from the reader)."""
+    if isinstance(x, list):
+        return [x], x
+    return x, x
+
+
+def rt_compare(ctx, rng, got, x, prof, label, opts, separate=False):
+    compare(ctx, rng, got, x, prof, label, dict(opts, step=label), separate=separate)
+
+
+def run_history(ctx, rng, idx, tmp):
+    support = ['one', 'replicas', 'ensembles', 'mixed', 'cov'][idx % 5]
+    what = ['obs', 'list', 'array', 'corr1', 'corrN', 'dict'][(idx // 5) % 6]
+    mode = ['strings', 'same-name-two-directories', 'overwrite-same-name', 'frames', 'dictfiles-and-pickle'][(idx // 30 + idx) % 5]
+    if what == 'dict' and mode != 'dictfiles-and-pickle':
+        mode = 'dictfiles-and-pickle'
+    if mode == 'frames' and what in ('array', 'dict'):
+        mode = 'overwrite-same-name'
+    A, B, famA, famB = build_twins(ctx, rng, what, support)
+    ctx.cell('history', what, support, mode)
+    ctx.count('histories')
+    opts = {'history': mode, 'what': what}
+    gz = bool(rng.integers(0, 2))
+    indent = int(rng.integers(0, 2))
+    order = [int(i) for i in rng.permutation(2)]
+    pair = [A, B]
+    if mode == 'strings':
+        docs = [JIO.create_json_string(wrap(x)[0], indent=indent) for x in pair]
+        reads = {}
+        for k in order + order[::-1]:
+            r = JIO.import_json_string(docs[k], verbose=False)
+            rt_compare(ctx, rng, r, wrap(pair[k])[1], P_JSON, 'strings read %d' % k, opts)
+            if k in reads:
+                sh = rt_io.sharing(list(walk_obs(r)), list(walk_obs(reads[k])))
+                ctx.require(not sh, 'json:two-reads-of-one-document-share-memory', {'pairs': sh[:5]})
+                # an earlier result must not have been changed by the later reads
+                rt_compare(ctx, rng, reads[k], wrap(pair[k])[1], P_JSON, 'strings earlier result %d' % k, opts)
+            reads[k] = r
+    elif mode == 'same-name-two-directories':
+        dirs = [os.path.join(tmp, 'a'), os.path.join(tmp, 'b')]
+        for dname, x in zip(dirs, pair):
+            os.mkdir(dname)
+            if is_obs(x) and rng.random() < 0.5:
+                x.dump('same', path=dname)
+                gzk = True
+            else:
+                JIO.dump_to_json(wrap(x)[0], os.path.join(dname, 'same'), indent=indent, gz=gz)
+                gzk = gz
+            opts['gz'] = gzk
+        gzs = [os.path.exists(os.path.join(dname, 'same.json.gz')) for dname in dirs]
+        for k in order + order[::-1]:
+            r = JIO.load_json(os.path.join(dirs[k], 'same'), verbose=False, gz=gzs[k])
+            rt_compare(ctx, rng, r, wrap(pair[k])[1], P_JSON, 'file %s/same' % 'ab'[k], opts)
+    elif mode == 'overwrite-same-name':
+        name = os.path.join(tmp, 'again')
+        for step, x in enumerate([A, B, A]):
+            JIO.dump_to_json(wrap(x)[0], name, indent=indent, gz=gz)
+            r = JIO.load_json(name, verbose=False, gz=gz)
+            rt_compare(ctx, rng, r, wrap(x)[1], P_JSON, 'overwrite step %d' % step, opts)
+        # modify the object that was dumped last, dump again under the same name
+        x = A
+        if is_obs(x):
+            x.tag = {'changed': True}
+        elif is_corr(x):
+            x.tag = 'changed'
+            x.prange = None if x.prange is not None else [0, x.T - 1]
+        elif isinstance(x, list):
+            x[0] = famA.member()
+            x[0].tag = 'replaced'
+        else:
+            x.flat[0] = famA.member()
+            x.flat[0].tag = 0
+        JIO.dump_to_json(wrap(x)[0], name, indent=indent, gz=gz)
+        r = JIO.load_json(name, verbose=False, gz=gz)
+        rt_compare(ctx, rng, r, wrap(x)[1], P_JSON, 'dump, modify, dump again', opts)
+    elif mode == 'frames':
+        import pandas as pd
+        fams = [famA, famB]
+
+        def second(k):
+            # a second row of the same kind
+            return build_like(ctx, rng, pair[k], fams[k], support)
+        rows = [[pair[k], second(k)] for k in range(2)]
+        dfs = [pd.DataFrame({'id': [10 * k + 1, 10 * k + 2], 'c': rows[k]}) for k in range(2)]
+
+        def judge(back, exp_rows, label, fam):
+            if not ctx.require(len(back) == len(exp_rows), fam + ':frame-shape', {'rows': len(back), 'exp': len(exp_rows), 'step': label}):
+                return
+            for i, e in enumerate(exp_rows):
+                g = back['c'][i]
+                if isinstance(e, list) and len(e) == 1 and is_obs(g):
+                    ctx.ev()
+                    ctx.violation(ONE_ELEMENT_LIST, {'transport': label, 'row': i, 'got': 'Obs', 'exp': 'list of 1 Obs'})
+                    e = e[0]
+                rt_compare(ctx, rng, g, e, Profile(fam), '%s row %d' % (label, i), opts, separate=isinstance(e, list))
+        db = os.path.join(tmp, 'h.sqlite')
+        PIO.to_sql(dfs[order[0]], 'tab', db, gz=gz)
+        judge(PIO.read_sql('SELECT * from tab', db), rows[order[0]], 'sql first table', 'df-sql')
+        PIO.to_sql(dfs[order[1]], 'tab', db, if_exists='replace', gz=gz)
+        judge(PIO.read_sql('SELECT * from tab', db), rows[order[1]], 'sql if_exists=replace', 'df-sql')
+        PIO.to_sql(dfs[order[0]], 'tab', db, if_exists='append', gz=gz)
+        judge(PIO.read_sql('SELECT * from tab', db), rows[order[1]] + rows[order[0]], 'sql if_exists=append', 'df-sql')
+        f = os.path.join(tmp, 'hframe')
+        for k in order:
+            PIO.dump_df(dfs[k], f, gz=gz)
+            judge(PIO.load_df(f, gz=gz), rows[k], 'csv overwritten by table %d' % k, 'df-csv')
+    else:
+        names = [os.path.join(tmp, 'dict%d' % k) for k in range(2)]
+        ds = [{'s': pair[k], 'x': k, 'n': {'s': 'text'}} if what != 'dict' else pair[k] for k in range(2)]
+        for k in order:
+            JIO.dump_dict_to_json(ds[k], names[k], indent=indent, gz=gz)
+        for k in order[::-1] + order:
+            r = JIO.load_json_dict(names[k], verbose=False, gz=gz)
+            rt_compare(ctx, rng, r, ds[k], Profile('jsondict'), 'dict file %d' % k, opts)
+        for k in order:
+            PE.misc.dump_object(pair[k], 'samepickle', path=tmp)
+            r = PE.misc.load_object(os.path.join(tmp, 'samepickle.p'))
+            rt_compare(ctx, rng, r, pair[k], P_PICKLE, 'pickle overwritten by %d' % k, opts)
+    ctx.sample({'structure': what, 'support': support, 'history': mode, 'order': order,
+                'chains A': {n: [list(o.idl[n])[0], list(o.idl[n])[-1], len(o.idl[n])] for o in list(walk_obs(A))[:1] for n in o.names if n not in o.covobs},
+                'chains B': {n: [list(o.idl[n])[0], list(o.idl[n])[-1], len(o.idl[n])] for o in list(walk_obs(B))[:1] for n in o.names if n not in o.covobs}})
+
+
+def build_like(ctx, rng, x, fam, support):
+    """Another structure of the same type and shape on the family's layout."""
+    if is_obs(x):
+        return fam.member()
+    if is_corr(x):
+        pad = [next((i for i, c in enumerate(x.content) if c is not None), 0), 0]
+        pad[1] = next((i for i, c in enumerate(x.content[::-1]) if c is not None), 0)
+        inner = x.content[pad[0]:x.T - pad[1]]
+        und = set(i for i, c in enumerate(inner) if c is None)
+        return make_corr(ctx, rng, support, x.N, fam=fam, spec=(len(inner), und, pad))
+    if isinstance(x, list):
+        return [fam.member() for _ in x]
+    raise ValueError(type(x))
+
+
+# ------------------------------------------------------------------------------------------
+# the same object at several positions
+# ------------------------------------------------------------------------------------------
+def run_alias(ctx, rng, idx, tmp):
+    support = SUPPORTS[idx % 5]
+    shape = ['list', 'array', 'corr1', 'corrN', 'dict', 'top', 'frame'][(idx // 5) % 7]
+    fam = family(ctx, rng, support, big=True)
+    a, b, c = fam.member(), fam.member(), fam.member()
+    a.tag = pick_tag(rng)
+    b.tag = pick_tag(rng)
+    ctx.count('alias_cases')
+    if shape == 'list':
+        x = [[a, b, a] if rng.random() < 0.5 else [a, a]]
+    elif shape == 'array':
+        x = np.empty((2, 2), dtype=object)
+        x[0, 0], x[0, 1], x[1, 0], x[1, 1] = a, b, b, a
+        if rng.random() < 0.3:
+            x[0, 1] = a
+    elif shape == 'corr1':
+        x = PE.Corr([a, b, a, None, a] if rng.random() < 0.5 else [a, a])
+        x.tag = 'alias'
+    elif shape == 'corrN':
+        m = np.empty((2, 2), dtype=object)
+        m[0, 0], m[0, 1], m[1, 0], m[1, 1] = a, b, b, a
+        m2 = np.empty((2, 2), dtype=object)
+        m2[0, 0], m2[0, 1], m2[1, 0], m2[1, 1] = c, a, a, c
+        x = PE.Corr([m, m2, m] if rng.random() < 0.5 else [m, None, m])
+    elif shape == 'dict':
+        li = [a, b]
+        arr = np.empty(2, dtype=object)
+        arr[0], arr[1] = a, a
+        x = {'x': a, 'y': li, 'z': {'x': a, 'again': li}, 'w': [a, 'sep', a, [a]], 'v': arr, 'u': PE.Corr([a, c, a])}
+    elif shape == 'top':
+        arr = np.empty(3, dtype=object)
+        arr[0], arr[1], arr[2] = a, b, a
+        x = [a, [a, b], arr, a, PE.Corr([b, a])]
+    else:
+        x = None
+    transport = ['string', 'file.gz', 'pickle', 'file'][(idx // 35) % 4] if shape not in ('dict', 'frame') else shape
+    ctx.cell('alias', shape, support, transport)
+    opts = {'alias': shape, 'transport': transport}
+    if shape == 'frame':
+        import pandas as pd
+        rows = [a, a, b, a]
+        df = pd.DataFrame({'c': rows, 'l': [[a, b], [a, a], [b, a], [a, b]], 'k': [PE.Corr([a, b, a])] * 4})
+        gz = bool(rng.integers(0, 2))
+        if rng.random() < 0.5:
+            PIO.dump_df(df, os.path.join(tmp, 'al'), gz=gz)
+            back = PIO.load_df(os.path.join(tmp, 'al'), gz=gz)
+            fam_name = 'df-csv'
+        else:
+            PIO.to_sql(df, 'tab', os.path.join(tmp, 'al.sqlite'), gz=gz)
+            back = PIO.read_sql('SELECT * from tab', os.path.join(tmp, 'al.sqlite'))
+            fam_name = 'df-sql'
+        exp = {'c': rows, 'l': list(df['l']), 'k': list(df['k'])}
+        if ctx.require(len(back) == 4, fam_name + ':frame-shape', {'rows': len(back)}):
+            for col in exp:
+                for i in range(4):
+                    rt_compare(ctx, rng, back[col][i], exp[col][i], Profile(fam_name), 'alias frame %s[%d]' % (col, i), opts, separate=isinstance(exp[col][i], list))
+            sh = rt_io.sharing([o for col in exp for cell in back[col] for o in walk_obs(cell)])
+            ctx.require(not sh, fam_name + ':results-share-memory-with-each-other', {'pairs': sh[:5]})
+        return
+    frozen = freeze(x)
+    if shape == 'dict':
+        gz = bool(rng.integers(0, 2))
+        JIO.dump_dict_to_json(x, os.path.join(tmp, 'ad'), gz=gz)
+        r = JIO.load_json_dict(os.path.join(tmp, 'ad'), verbose=False, gz=gz)
+        post_checks(ctx, x, frozen, r, 'jsondict')
+        rt_compare(ctx, rng, r, x, Profile('jsondict'), 'alias dict', opts)
+    elif transport == 'pickle':
+        PE.misc.dump_object(x, 'ap', path=tmp)
+        r = PE.misc.load_object(os.path.join(tmp, 'ap.p'))
+        post_checks(ctx, x, frozen, r, 'pickle', same_objects_allowed=True)
+        rt_compare(ctx, rng, r, x, P_PICKLE, 'alias pickle', opts)
+    else:
+        if transport == 'string':
+            r = JIO.import_json_string(JIO.create_json_string(x, indent=int(rng.integers(0, 2))), verbose=False)
+        else:
+            gz = transport == 'file.gz'
+            JIO.dump_to_json(x, os.path.join(tmp, 'af'), gz=gz)
+            r = JIO.load_json(os.path.join(tmp, 'af'), verbose=False, gz=gz)
+        separate = isinstance(x, list) and len(x) != 1
+        exp = x if separate else expect_top(x)
+        post_checks(ctx, x, frozen, r, 'json')
+        rt_compare(ctx, rng, r, exp, P_JSON, 'alias ' + transport, opts, separate=separate)
+    ctx.sample({'structure': shape, 'support': support, 'transport': transport, 'same object at several positions': True})
 
 
 def run_case(ctx, kind, idx, rng):
@@ -812,5 +1271,9 @@ def run_case(ctx, kind, idx, rng):
             run_rew(ctx, rng, idx, tmp)
         elif kind == 'edge':
             run_edge(ctx, rng, idx, tmp)
+        elif kind == 'history':
+            run_history(ctx, rng, idx, tmp)
+        elif kind == 'alias':
+            run_alias(ctx, rng, idx, tmp)
         else:
             raise ValueError(kind)
